@@ -313,104 +313,125 @@ func runC05(c *Ctx) {
 			break
 		}
 		// in the quick tier the deepest level is explored for the hand-written scripts and every 7th generated one
-		jobs := make([]harness.Job, len(level))
-		for i, n := range level {
-			jobs[i] = c05Job(i, corpus[n.si], n.dec)
-		}
 		var next []node
-		c.Pool.Map(jobs, func(j *harness.Job, t *harness.Trace) {
-			n := level[j.ID]
-			s := corpus[n.si]
-			c.Evaluations++
-			c.Traces++
-			c.States++
-			if t.Err != "" {
-				c.HarnessError(t.Err)
-				return
+		whole := level
+		expired := false
+		for off := 0; off < len(whole) && !expired; off += 20000 {
+			if off > 0 && c.Expired() {
+				c.Cap(fmt.Sprintf("internal deadline: %d of %d plans with %d deviations explored", off, len(whole), depth))
+				expired = true
+				break
 			}
-			call := LastCall(t)
-			c.Transitions += int64(len(call.Events))
-			out := c05Out(t)
-			if depth == 0 {
-				defaults[n.si] = out
-				defEvents[n.si] = call.Events
-				if out.outcome != "returned" {
-					c.Outcome("default-plan-does-not-return/" + out.outcome)
+			end := off + 20000
+			if end > len(whole) {
+				end = len(whole)
+			}
+			level := whole[off:end]
+			jobs := make([]harness.Job, len(level))
+			for i, n := range level {
+				jobs[i] = c05Job(i, corpus[n.si], n.dec)
+			}
+			c.Pool.Map(jobs, func(j *harness.Job, t *harness.Trace) {
+				n := level[j.ID]
+				s := corpus[n.si]
+				c.Evaluations++
+				c.Traces++
+				c.States++
+				if t.Err != "" {
+					c.HarnessError(t.Err)
 					return
 				}
-				c.Outcome("default/" + out.outcome)
-			} else {
-				c.NontrivialN++
-				def := defaults[n.si]
-				if def.outcome != "returned" {
-					return
-				}
-				if s.mode == "vi" && c05SplitsAfterEsc(s, call.Events) {
-					c.Outcome("excluded/vi-split-after-ESC")
-					return
-				}
-				if out != def {
-					fp := c05Class(s, n.dec, call.Events, def, out)
-					c.Outcome(fp)
-					if cd, ok := c.cands[fp]; ok {
-						cd.count++
-					} else {
-						jd, jv := c05Job(0, s, map[int]harness.Decision{}), c05Job(1, s, n.dec)
-						c.Violate(Witness{Fingerprint: fp, Engine: "session", Jobs: []harness.Job{jd, jv},
-							What: fmt.Sprintf("script %s: default plan gives (%q, err=%q, %s); the plan with decisions %v gives (%q, err=%q, %s %s); events: %s", s.name, def.line, def.err, def.outcome, n.dec, out.line, out.err, out.outcome, out.site, showEvents(call.Events))}, func() string {
-							a, b := c05Out(c.Pool.RunOne(&jd)), c05Out(c.Pool.RunOne(&jv))
-							if a != b {
-								return c05Class(s, n.dec, LastCall(c.Pool.RunOne(&jv)).Events, a, b)
-							}
-							return ""
-						})
+				call := LastCall(t)
+				c.Transitions += int64(len(call.Events))
+				out := c05Out(t)
+				if depth == 0 {
+					defaults[n.si] = out
+					defEvents[n.si] = call.Events
+					if out.outcome != "returned" {
+						c.Outcome("default-plan-does-not-return/" + out.outcome)
+						return
 					}
-					return // do not deviate further from a failing plan
-				}
-				c.Outcome("same-as-default")
-			}
-			if c.Evaluations%4001 == 3 {
-				c.Sample(map[string]any{"script": s.name, "decisions": n.dec, "events": showEvents(call.Events), "result": out.line})
-			}
-			if n.devs >= D {
-				return
-			}
-			if quick && n.devs >= 1 && n.si%5 != 0 && n.si < len(corpus)-17 {
-				return // quick: second deviation for every 5th generated script and all hand-written ones
-			}
-			for i, ev := range call.Events {
-				if i <= n.last {
-					continue
-				}
-				for _, alt := range c05Alternatives(s, ev) {
-					nd := map[int]harness.Decision{}
-					for k, v := range n.dec {
-						nd[k] = v
+					c.Outcome("default/" + out.outcome)
+				} else {
+					c.NontrivialN++
+					def := defaults[n.si]
+					if def.outcome != "returned" {
+						return
 					}
-					nd[i] = alt
-					next = append(next, node{si: n.si, dec: nd, devs: n.devs + 1, last: i})
+					if s.mode == "vi" && c05SplitsAfterEsc(s, call.Events) {
+						c.Outcome("excluded/vi-split-after-ESC")
+						return
+					}
+					if out != def {
+						fp := c05Class(s, n.dec, call.Events, def, out)
+						c.Outcome(fp)
+						if cd, ok := c.cands[fp]; ok {
+							cd.count++
+						} else {
+							jd, jv := c05Job(0, s, map[int]harness.Decision{}), c05Job(1, s, n.dec)
+							c.Violate(Witness{Fingerprint: fp, Engine: "session", Jobs: []harness.Job{jd, jv},
+								What: fmt.Sprintf("script %s: default plan gives (%q, err=%q, %s); the plan with decisions %v gives (%q, err=%q, %s %s); events: %s", s.name, def.line, def.err, def.outcome, n.dec, out.line, out.err, out.outcome, out.site, showEvents(call.Events))}, func() string {
+								a, b := c05Out(c.Pool.RunOne(&jd)), c05Out(c.Pool.RunOne(&jv))
+								if a != b {
+									return c05Class(s, n.dec, LastCall(c.Pool.RunOne(&jv)).Events, a, b)
+								}
+								return ""
+							})
+						}
+						return // do not deviate further from a failing plan
+					}
+					c.Outcome("same-as-default")
 				}
-			}
-			if depth == 0 {
-				// extremes: everything in the first key read; one byte per read
-				b, _ := s.bytes()
-				first := -1
+				if c.Evaluations%4001 == 3 {
+					c.Sample(map[string]any{"script": s.name, "decisions": n.dec, "events": showEvents(call.Events), "result": out.line})
+				}
+				if n.devs >= D {
+					return
+				}
+				if quick && n.devs >= 1 && n.si%5 != 0 && n.si < len(corpus)-17 {
+					return // quick: second deviation for every 5th generated script and all hand-written ones
+				}
 				for i, ev := range call.Events {
-					if ev.Kind == "key" {
-						first = i
-						break
+					if i <= n.last {
+						continue
+					}
+					for _, alt := range c05Alternatives(s, ev) {
+						if len(next) >= 2500000 {
+							c.Cap(fmt.Sprintf("frontier cap: more than 2.5 M plans with %d deviations; the rest is not explored", n.devs+1))
+							break
+						}
+						nd := map[int]harness.Decision{}
+						for k, v := range n.dec {
+							nd[k] = v
+						}
+						nd[i] = alt
+						next = append(next, node{si: n.si, dec: nd, devs: n.devs + 1, last: i})
 					}
 				}
-				if first >= 0 {
-					next = append(next, node{si: n.si, dec: map[int]harness.Decision{first: {N: len(b)}}, devs: D, last: 1 << 30})
+				if depth == 0 {
+					// extremes: everything in the first key read; one byte per read
+					b, _ := s.bytes()
+					first := -1
+					for i, ev := range call.Events {
+						if ev.Kind == "key" {
+							first = i
+							break
+						}
+					}
+					if first >= 0 {
+						next = append(next, node{si: n.si, dec: map[int]harness.Decision{first: {N: len(b)}}, devs: D, last: 1 << 30})
+					}
+					one := map[int]harness.Decision{}
+					for i := 0; i < 4*len(b)+16; i++ {
+						one[i] = harness.Decision{N: 1} // applies to key reads; N at cpr reads needs a Mode to deliver
+					}
+					next = append(next, node{si: n.si, dec: one, devs: D, last: 1 << 30})
 				}
-				one := map[int]harness.Decision{}
-				for i := 0; i < 4*len(b)+16; i++ {
-					one[i] = harness.Decision{N: 1} // applies to key reads; N at cpr reads needs a Mode to deliver
-				}
-				next = append(next, node{si: n.si, dec: one, devs: D, last: 1 << 30})
-			}
-		})
+			})
+		}
+		if expired {
+			break
+		}
 		level = next
 	}
 }
